@@ -212,6 +212,111 @@ class _RecordDeviceTransfer:
 _device_recorder = _RecordDeviceTransfer()
 
 
+def _lazy_stack_memberwise(self, op: str, others, args, kwargs, inplace: bool = False):
+    """Runs a pointwise op member by member when a lazy stack meets an operand that is not stacked alike.
+
+    A :class:`~tensordict.LazyStackedTensorDict` exposes its leaves member by member to the fused
+    (``torch._foreach_*``) ops. An operand that is a regular tensordict, a lazy stack along another
+    dim or a tensor of batch shape must then be split along the same stack dim, otherwise its entries
+    cannot be found (``KeyError``) or, worse, member ``i`` of one stack is paired with member ``i`` of
+    a stack made along another dim.
+
+    Returns ``NotImplemented`` when the regular code path applies.
+    """
+    if op.startswith("__") and op != "__and__":
+        # the comparison operators have their own lazy-stack dispatch
+        return NotImplemented
+    if not getattr(self, "_lazy", False) or not hasattr(self, "tensordicts"):
+        # a lazy stack as operand of a regular tensordict is densified
+        if any(
+            _is_tensor_collection(type(other))
+            and getattr(other, "_lazy", False)
+            and hasattr(other, "tensordicts")
+            for other in others
+            if other is not None
+        ):
+            others = tuple(
+                (
+                    other.to_tensordict()
+                    if other is not None
+                    and _is_tensor_collection(type(other))
+                    and getattr(other, "_lazy", False)
+                    and hasattr(other, "tensordicts")
+                    else other
+                )
+                for other in others
+            )
+            if any(
+                other is not None
+                and _is_tensor_collection(type(other))
+                and getattr(other, "_lazy", False)
+                for other in others
+            ):
+                # could not be densified (e.g. stacks of non-tensor data)
+                return NotImplemented
+            return getattr(self, op)(*others, *args, **kwargs)
+        return NotImplemented
+    stack_dim = self.stack_dim
+    n = len(self.tensordicts)
+    needed = False
+    for other in others:
+        if other is None:
+            continue
+        if _is_tensor_collection(type(other)):
+            if not (
+                getattr(other, "_lazy", False)
+                and hasattr(other, "tensordicts")
+                and other.stack_dim == stack_dim
+                and len(other.tensordicts) == n
+            ):
+                needed = True
+        elif isinstance(other, torch.Tensor) and other.ndim:
+            needed = True
+    if not needed:
+        return NotImplemented
+    shape = self.shape
+    unbound = []
+    for other in others:
+        if other is not None and (
+            _is_tensor_collection(type(other))
+            or (isinstance(other, torch.Tensor) and other.ndim)
+        ):
+            if torch.broadcast_shapes(shape, other.shape) != shape:
+                # self would have to be expanded: leave it to the regular path
+                return NotImplemented
+            if other.shape != shape:
+                other = other.expand(shape)
+            unbound.append(other.unbind(stack_dim))
+        else:
+            unbound.append([other] * n)
+    results = [
+        getattr(td, op)(*oth, *args, **kwargs)
+        for td, *oth in _zip_strict(self.tensordicts, *unbound)
+    ]
+    if inplace:
+        return self
+    from tensordict._lazy import LazyStackedTensorDict
+
+    return LazyStackedTensorDict.lazy_stack(results, stack_dim)
+
+
+def _lazy_memberwise_inplace(op: str, n_other: int = 1):
+    """In-place counterpart of the lazy-stack dispatch of :func:`_maybe_broadcast_other`."""
+
+    def wrap_func(func):
+        @wraps(func)
+        def new_func(self, *others, **kwargs):
+            others_, args = others[:n_other], others[n_other:]
+            out = _lazy_stack_memberwise(self, op, others_, args, kwargs, inplace=True)
+            if out is not NotImplemented:
+                return out
+            return func(self, *others, **kwargs)
+
+        return new_func
+
+    return wrap_func
+
+
 def _maybe_broadcast_other(op: str, n_other: int = 1):
     """Ensures that elementwise ops are broadcast when an nd tensor is passed."""
 
@@ -219,6 +324,9 @@ def _maybe_broadcast_other(op: str, n_other: int = 1):
         @wraps(func)
         def new_func(self, *others, **kwargs):
             others, args = others[:n_other], others[n_other:]
+            out = _lazy_stack_memberwise(self, op, others, args, kwargs)
+            if out is not NotImplemented:
+                return out
             need_broadcast = False
             for other in others:
                 if other is None:
@@ -10516,6 +10624,7 @@ class TensorDictBase(MutableMapping):
             return [expand_as_right(other, val) for val in vals]
         return other
 
+    @_lazy_memberwise_inplace("add_")
     def add_(
         self,
         other: TensorDictBase | torch.Tensor | float,
@@ -10589,6 +10698,7 @@ class TensorDictBase(MutableMapping):
             propagate_lock=True,
         )
 
+    @_lazy_memberwise_inplace("lerp_", 2)
     def lerp_(
         self,
         end: TensorDictBase | torch.Tensor | float,
@@ -10657,6 +10767,7 @@ class TensorDictBase(MutableMapping):
             propagate_lock=True,
         )
 
+    @_lazy_memberwise_inplace("addcdiv_", 2)
     def addcdiv_(self, other1, other2, *, value: float | None = 1):
         """The in-place version of :meth:`~.addcdiv`."""
         keys, vals = self._items_list(True, True)
@@ -10720,6 +10831,7 @@ class TensorDictBase(MutableMapping):
             propagate_lock=True,
         )
 
+    @_lazy_memberwise_inplace("addcmul_", 2)
     def addcmul_(self, other1, other2, *, value: float | None = 1):
         """The in-place version of :meth:`~.addcmul`."""
         keys, vals = self._items_list(True, True)
@@ -10802,6 +10914,7 @@ class TensorDictBase(MutableMapping):
                 result.update(items)
         return result
 
+    @_lazy_memberwise_inplace("sub_")
     def sub_(
         self, other: TensorDictBase | torch.Tensor | float, alpha: float | None = None
     ):
@@ -10828,6 +10941,7 @@ class TensorDictBase(MutableMapping):
             torch._foreach_sub_(vals, other_val)
         return self
 
+    @_lazy_memberwise_inplace("mul_")
     def mul_(self, other: TensorDictBase | torch.Tensor) -> T:
         """In-place version of :meth:`~.mul`.
 
@@ -10902,6 +11016,7 @@ class TensorDictBase(MutableMapping):
                 result.update(items)
         return result
 
+    @_lazy_memberwise_inplace("maximum_")
     def maximum_(self, other: TensorDictBase | torch.Tensor) -> T:
         """In-place version of :meth:`~.maximum`.
 
@@ -10971,6 +11086,7 @@ class TensorDictBase(MutableMapping):
                 result.update(items)
         return result
 
+    @_lazy_memberwise_inplace("minimum_")
     def minimum_(self, other: TensorDictBase | torch.Tensor) -> T:
         """In-place version of :meth:`~.minimum`.
 
@@ -11040,6 +11156,7 @@ class TensorDictBase(MutableMapping):
                 result.update(items)
         return result
 
+    @_lazy_memberwise_inplace("clamp_max_")
     def clamp_max_(self, other: TensorDictBase | torch.Tensor) -> T:
         """In-place version of :meth:`~.clamp_max`.
 
@@ -11125,6 +11242,7 @@ class TensorDictBase(MutableMapping):
                 result.update(items)
         return result
 
+    @_lazy_memberwise_inplace("clamp_min_")
     def clamp_min_(self, other: TensorDictBase | torch.Tensor) -> T:
         """In-place version of :meth:`~.clamp_min`.
 
@@ -11276,6 +11394,7 @@ class TensorDictBase(MutableMapping):
         with out.unlock_() if out.is_locked else contextlib.nullcontext():
             return out.update(result)
 
+    @_lazy_memberwise_inplace("pow_")
     def pow_(self, other: TensorDictBase | torch.Tensor) -> T:
         """In-place version of :meth:`~.pow`.
 
@@ -11350,6 +11469,7 @@ class TensorDictBase(MutableMapping):
                 result.update(items)
         return result
 
+    @_lazy_memberwise_inplace("div_")
     def div_(self, other: TensorDictBase | torch.Tensor) -> T:
         """In-place version of :meth:`~.div`.
 
